@@ -396,6 +396,7 @@ func post(c *ev.Check, outs []*run.Outcome) {
 		c.Require("interleave.cells", int64(len(interleaveCells())*nBatch["interleave"]/4))
 		c.Require("interleave.state_equal_model", 1)
 		c.Require("latestart.catchup_rounds_inside_constructor", 2)
+		c.Require("closeinflight.closed", 8)
 		c.Require("api_vs_state.checks", 10)
 		c.Require("lin.linearizable", 1)
 		c.Require("lin.selftest_accepted_legal", 1)
